@@ -10,7 +10,8 @@ from harness.common import Check
 from translate import dispatch as t_disp, guards as t_guards, ops as t_ops
 
 THEOREMS = ["C17_range", "C17_hard_values", "C17_hard_event", "C17_hard_temperature_independent", "C17_hard_probability",
-            "C17_reproducible", "C17_guard", "C17_layer_hard_single_gate", "C17_layer_soft_mixture", "C17_sampling_source", "C17_hard_threshold_outside"]
+            "C17_reproducible", "C17_guard", "C17_layer_hard_single_gate", "C17_layer_soft_mixture", "C17_sampling_source", "C17_hard_threshold_outside",
+            "C17_gumbel_race", "C17_gumbel_race_temperature"]
 TRUSTED = [
     "Coq 8.16.1 kernel/coqc; theorems over R depend on the standard-library Reals axioms and Classical_Prop.classic",
     "partial: that torch.rand_like returns independent uniform variates on [0,1) is trusted (the distributional claim is reduced to the "
@@ -32,6 +33,22 @@ def fixed_uniform(u):
         yield
     finally:
         torch.rand_like = orig
+
+
+@contextlib.contextmanager
+def fixed_exponential(e):
+    """torch.Tensor.exponential_ fills the tensor with the supplied draws (the noise of functional.gumbel_softmax)."""
+    orig = torch.Tensor.exponential_
+
+    def fake(t, *a, **kw):
+        with torch.no_grad():
+            t.copy_(torch.as_tensor(e, dtype=t.dtype).reshape(t.shape))
+        return t
+    torch.Tensor.exponential_ = fake
+    try:
+        yield
+    finally:
+        torch.Tensor.exponential_ = orig
 
 
 def run(ck: Check):
@@ -253,6 +270,40 @@ def run(ck: Check):
                 ck.disagree("gumbel_hard training output on Boolean inputs is not Boolean (not a single gate per neuron)",
                             dict(case, largest=float(y.max()), outside=int((torch.minimum(y.abs(), (y - 1).abs()) > 0.05).sum())),
                             signature={"layer": name, "param": "raw", "mode": "gumbel_hard", "what": "single-gate"})
+    # exponential race (theorems C17_gumbel_race / C17_gumbel_race_temperature): with the exponential draws supplied, the hard raw sample is
+    # the gate whose e_i / exp(w_i) is smallest, at every temperature; the soft sample is softmax((w - ln e) / tau)
+    n_race = 2000 if ck.tier == "quick" else 20000
+    g_race = torch.Generator().manual_seed(ck.seed + 313)
+    w_race = torch.randn(n_race, 16, generator=g_race, dtype=torch.float64) * 2
+    e_race = -torch.log(torch.rand(n_race, 16, generator=g_race, dtype=torch.float64).clamp_min(1e-300))
+    race = e_race / torch.exp(w_race)
+    top2 = race.topk(2, dim=-1, largest=False).values
+    clear = (top2[:, 1] - top2[:, 0]) > 1e-4 * top2[:, 1]                # rows whose winner does not hinge on rounding
+    winner = race.argmin(-1)
+    for dt in (torch.float64, torch.float32):
+        for tau in (1e-3, 0.3, 1.0, 50.0, 1e6):
+            case = {"kind": "exponential-race", "dtype": str(dt), "tau": tau, "rows": int(clear.sum())}
+            ck.case(case, nontrivial=True, kind="exponential-race")
+            with fixed_exponential(e_race), torch.no_grad():
+                y = Fn.gumbel_softmax(w_race.to(dt), tau=tau, hard=True).double()
+                ysoft = Fn.gumbel_softmax(w_race.to(dt), tau=tau, hard=False).double()
+            got = y.argmax(-1)
+            bad = ((got != winner) & clear).nonzero().flatten().tolist()
+            if bad:
+                r = bad[0]
+                ck.disagree("the hard raw Gumbel sample is not the winner of the exponential race (the gate with the smallest e_i / exp(w_i))",
+                            dict(case, rows_wrong=len(bad), row=r, logits=w_race[r].tolist(), exponential_draws=e_race[r].tolist(),
+                                 expected_gate=int(winner[r]), got_gate=int(got[r]), sample=y[r].tolist()),
+                            signature={"layer": "primitive", "param": "raw", "mode": "gumbel_hard", "what": "race"})
+            ref = torch.softmax((w_race - torch.log(e_race)) / tau, -1)
+            tol = 1e-9 if dt == torch.float64 else (2e-3 if tau < 0.01 else 1e-4)
+            dev = float((ysoft - ref)[clear].abs().max())
+            if not dev <= tol:
+                r = int((ysoft - ref).abs().max(-1).values.argmax())
+                ck.disagree("the soft raw Gumbel sample is not softmax((logits - ln e) / tau) of the supplied exponential draws",
+                            dict(case, deviation=dev, row=r, logits=w_race[r].tolist(), exponential_draws=e_race[r].tolist(),
+                                 expected=ref[r].tolist(), got=ysoft[r].tolist()),
+                            signature={"layer": "primitive", "param": "raw", "mode": "gumbel_soft", "what": "race"})
     # thresholds at and beyond the ends of (0,1): the soft sample lies strictly inside (0,1), so the hard sample is always 1 for a threshold
     # <= 0 and always 0 for a threshold >= 1, at every temperature (the rounded sigmoid is exactly 0 / 1 far out in the tails)
     import torchlogix.functional as Fn2
